@@ -121,3 +121,44 @@ Theorem C01_exec_mono :
   forall lim n e s r, exec lim n e s = r -> r <> RFuel -> forall m, (n <= m)%nat -> exec lim m e s = r.
 Proof. exact Proofs.EvmMono.exec_mono. Qed.
 Print Assumptions C01_exec_mono.
+
+(* ------------------------------------------------------------------------------------------
+   The other branch points (Model/BranchPoints.v over Gen/GenBranch.v): the condition attached to
+   an explored alternative pins down the behaviour it describes. *)
+From HV Require Import Gen.GenBranch Model.BranchPoints Proofs.BranchProofs.
+
+(* address aliases: under a valuation satisfying an alternative's condition the symbolic address
+   IS the alias it names (an existing account), or is none of the existing accounts *)
+Theorem C01_alias_sound :
+  forall (V : Type) (chk : cnd V -> Z) (accts : list Z) (test : Z) (tgt : V -> Z) o c (v : V),
+    In (o, c) (alias_alternatives V chk accts test tgt) -> c v = true ->
+    match o with
+    | Some a => tgt v = a /\ In a accts
+    | None => ~ In (tgt v) accts
+    end.
+Proof. exact alias_sound. Qed.
+Print Assumptions C01_alias_sound.
+
+(* insufficient funds: the failing alternative only describes valuations with balance < value, the
+   succeeding one only valuations with value <= balance -- never both outcomes for one input *)
+Theorem C01_funds_sound :
+  forall (V : Type) (chk : cnd V -> Z) (bal val : V -> Z) fails c (v : V),
+    In (fails, c) (funds_alternatives V chk bal val) -> c v = true ->
+    if fails then bal v < val v else val v <= bal v.
+Proof. exact funds_sound. Qed.
+Print Assumptions C01_funds_sound.
+
+(* symbolic JUMP: a branch's condition pins the destination to the valid one it jumps to, and the
+   whole state halts with an invalid destination only if no valuation of the path has a valid one *)
+Theorem C01_symjump_sound :
+  forall (V : Type) (chk : cnd V -> Z) (valid : list Z) (dst : V -> Z) l t c (v : V),
+    jump_alternatives V chk valid dst = Some l -> In (t, c) l -> c v = true -> dst v = t /\ In t valid.
+Proof. exact jump_sound. Qed.
+Print Assumptions C01_symjump_sound.
+
+Theorem C01_symjump_halt_sound :
+  forall (V : Type) (chk : cnd V -> Z) (path : V -> Prop) (valid : list Z) (dst : V -> Z) (v : V),
+    (forall c, chk c = 0 -> forall v', path v' -> c v' = false) ->
+    jump_alternatives V chk valid dst = None -> path v -> ~ In (dst v) valid.
+Proof. exact jump_halt_sound. Qed.
+Print Assumptions C01_symjump_halt_sound.
